@@ -124,7 +124,11 @@ static void explore(int n0, int dev) {
 			script[i] = alt[a]; nscript = i + 1;
 			if (alt[a].kind == O_SHORT) n_short++; else if (alt[a].kind <= O_EINTR3) n_eintr++;
 			vh_sig(vh_mix(vh_mix(alt[a].kind, i < 20 ? i : 20), dev));
-			if (alt[a].kind >= O_EIO) { /* nothing follows a hard error */ if (SC.pool) { run_script(); } else run_script(); }
+			if (alt[a].kind >= O_EIO) run_script();                 /* nothing follows a hard error */
+			else if (dev == 0 && g_maxd >= 3) {
+				/* aborted writers leave their buffers behind (the assertion is unwound with longjmp): run each first-deviation subtree in a child */
+				if (vh_batch_fork()) { n_runs = n_hard = n_short = n_eintr = 0; explore(i + 1, dev + 1); vh_count("scripts_with_hard_error", n_hard); vh_count("short_write_deviations", n_short); vh_count("eintr_deviations", n_eintr); vh_batch_exit(); }
+			}
 			else explore(i + 1, dev + 1);
 			nscript = keep;
 		}
